@@ -385,6 +385,11 @@ def run(ctx):
         if ok:
             tgt = M.noref(M.strip(Tf.operand(mu[0][1]["args"][0])))
             ok = tgt == ("field", ("field", ("param", 1, f.local_name(1)), "config"), "env")
+            if not ok and tgt[0] == "call" and tgt[1] == "builder::exec::Exec::ensure_env" and M.noref(M.strip(tgt[2][0])) == ("param", 1, f.local_name(1)):
+                # ensure_env hands out the list itself: what it returns is the payload of self.config.env
+                ee_ = prog.one("builder::exec::Exec::ensure_env")
+                r_ = M.noref(M.strip(M.Terms(ee_).local(0)))
+                ok = r_ == ("field", ("field", ("param", 1, ee_.local_name(1)), "config"), "env")
         ctx.ob("R16.4", "%s.snapshot-then-%s" % (meth, mutator.split("::")[-1]), ok, f.loc(0), "Exec::%s must call ensure_env before it edits config.env with %s" % (meth, mutator.split("::")[-1]))
         # an *ordered edit*: the one mutation is applied on every path (not only when the name is new / present), and nothing else touches the list —
         # the later of duplicate names wins downstream (format_env), so an in-place overwrite of an earlier entry is silently lost
